@@ -330,8 +330,110 @@ def linear(A, f, e, env):
         raise NotLinear(norm(e))
     if isinstance(e, ast.IfExp):
         # `0.0 if -eps < x < eps else <linear>`: the general branch
-        return linear(A, f, e.orelse, env)
+        return general_branch(A, f, e.test, linear(A, f, e.body, env),
+                              linear(A, f, e.orelse, env), env)
     raise NotLinear(norm(e))
+
+
+def _is_const(form):
+    return all(k == 1 or v == 0 for k, v in form.items())
+
+
+def _windows(A, f, test, env):
+    """[(lo, hi, variable form)] for a disjunction of `lo < x < hi` chains
+    (or abs(x) < eps); None when the test has another shape."""
+    parts = test.values if isinstance(test, ast.BoolOp) and \
+        isinstance(test.op, ast.Or) else [test]
+    out = []
+    for c in parts:
+        if not isinstance(c, ast.Compare):
+            return None
+        if len(c.ops) == 2 and all(isinstance(o, (ast.Lt, ast.LtE)) for o in c.ops):
+            lo, hi = A.try_fold(c.left, f), A.try_fold(c.comparators[1], f)
+            var = c.comparators[0]
+        elif len(c.ops) == 1 and isinstance(c.ops[0], (ast.Lt, ast.LtE)) and \
+                isinstance(c.left, ast.Call) and norm(c.left.func) == 'abs':
+            hi = A.try_fold(c.comparators[0], f)
+            lo = -hi if isinstance(hi, (int, float)) else None
+            var = c.left.args[0]
+        elif len(c.ops) == 1 and isinstance(c.ops[0], (ast.Lt, ast.LtE, ast.Gt, ast.GtE)):
+            # one-sided: a half line
+            l, r = A.try_fold(c.left, f), A.try_fold(c.comparators[0], f)
+            less = isinstance(c.ops[0], (ast.Lt, ast.LtE))
+            if isinstance(r, (int, float)) and not isinstance(l, (int, float)):
+                var = c.left
+                lo, hi = (float('-inf'), r) if less else (r, float('inf'))
+            elif isinstance(l, (int, float)) and not isinstance(r, (int, float)):
+                var = c.comparators[0]
+                lo, hi = (l, float('inf')) if less else (float('-inf'), l)
+            else:
+                return None
+        else:
+            return None
+        if not isinstance(lo, (int, float)) or not isinstance(hi, (int, float)):
+            return None
+        try:
+            out.append((float(lo), float(hi), linear(A, f, var, env)))
+        except NotLinear:
+            return None
+    return out
+
+
+def general_branch(A, f, test, body_form, else_form, env):
+    """Of the two branches of a special-casing test return the general one.
+    The special branch must be a constant, its windows must be narrow and the
+    general formula must give (nearly) that constant at their centres -
+    otherwise the special case changes values it has no business changing."""
+    if _is_const(body_form) == _is_const(else_form):
+        if body_form == else_form:
+            return body_form
+        raise NotLinear('both branches of `%s` are %s' % (
+            norm(test), 'constants' if _is_const(body_form) else 'formulas'))
+    special_is_body = _is_const(body_form)
+    const = (body_form if special_is_body else else_form).get(1, 0.0)
+    general = else_form if special_is_body else body_form
+    cond = test
+    if not special_is_body:
+        if isinstance(cond, ast.UnaryOp) and isinstance(cond.op, ast.Not):
+            cond = cond.operand
+        else:
+            return general          # shape not analysed: formula only
+    wins = _windows(A, f, cond, env)
+    if wins is None:
+        return general
+    for lo, hi, var in wins:
+        vs = _single(var)
+        periodic = vs is not None and any(
+            isinstance(k, tuple) and k[0] == 'mod' and k[1] == vs[0]
+            for k in general)
+        half_line = hi - lo == float('inf')
+        if half_line and not periodic:
+            # a saturating clamp: legitimate when it continues the formula
+            mid = hi if lo == float('-inf') else lo
+        elif hi - lo > 1e-3:
+            raise NotLinear('special case `%s` replaces the formula by %g on '
+                            'a range %g wide' % (norm(cond), const, hi - lo))
+        else:
+            mid = (lo + hi) / 2.0
+        if vs is None or vs[1] != 1.0:
+            continue
+        total = general.get(1, 0.0)
+        for k, coeff in general.items():
+            if k == 1:
+                continue
+            if k == vs[0]:
+                total += coeff * mid
+            elif isinstance(k, tuple) and k[0] == 'mod' and k[1] == vs[0]:
+                total += coeff * (mid % k[2])
+            else:
+                total = None
+                break
+        width = 0.0 if half_line else hi - lo
+        if total is not None and abs(total - const) > \
+                max(abs(c) for c in general.values()) * width + 1e-9:
+            raise NotLinear('special case `%s` yields %g where the formula '
+                            'gives %g' % (norm(cond), const, total))
+    return general
 
 
 def _close(a, b):
@@ -379,13 +481,25 @@ def _returned_components(A, f):
                         linear(A, f, arg, env)
                     env[name.id] = {'unit:%d' % i: 1.0}
         elif isinstance(st, ast.If):
-            # hue special-casing: take the general (else) branch
-            for sub in st.orelse:
-                if isinstance(sub, ast.Assign) and isinstance(sub.targets[0], ast.Name):
-                    try:
-                        env[sub.targets[0].id] = linear(A, f, sub.value, env)
-                    except NotLinear:
-                        pass
+            # hue special-casing: `if <window>: h = 0.0 else: h = <formula>`
+            def assigns(stmts):
+                out = {}
+                for sub in stmts:
+                    if isinstance(sub, ast.Assign) and len(sub.targets) == 1 \
+                            and isinstance(sub.targets[0], ast.Name):
+                        try:
+                            out[sub.targets[0].id] = linear(A, f, sub.value, env)
+                        except NotLinear:
+                            pass
+                return out
+            a, b = assigns(st.body), assigns(st.orelse)
+            for name in set(a) & set(b):
+                try:
+                    env[name] = general_branch(A, f, st.test, a[name], b[name], env)
+                except NotLinear as ex:
+                    env.pop(name, None)
+                    notes = env.setdefault('<notes>', [])
+                    notes.append(str(ex))
         elif isinstance(st, ast.Return):
             ret = st.value
     return ret, env
@@ -469,14 +583,17 @@ def r07c(R):
             while isinstance(e, ast.Call) and norm(e.func) in ('max', 'round') \
                     and e.args:
                 e = e.args[0]
+            why = ''
             try:
                 got = _single(linear(A, f, e, env))
             except NotLinear as ex:
                 got = None
+                why = '; '.join([str(ex)] + env.get('<notes>', []))
             R.check(f, '%s[%d] = %s' % (name, i, norm(elt)),
                     got is not None and got[0] == want[0] and _close(got[1], want[1]),
-                    'component %d of units.%s must be %.10g * %s (found %s)'
-                    % (i, name, want[1], want[0], got))
+                    'component %d of units.%s must be %.10g * %s (found %s%s)'
+                    % (i, name, want[1], want[0], got,
+                       ': ' + why if why else ''))
         # inputs handed to colorsys are scaled to 0..1
         scale = COLORSYS_INPUT_SCALE.get(name)
         if scale is not None:
